@@ -103,34 +103,22 @@ impl World {
     }
 }
 
-fn initial_timestamp(faulty: bool) -> u64 {
+/// Draws a timestamp for an initial secret; returns it with the fault kind it stands for (counted
+/// by the caller only when the secret is really used).
+fn initial_timestamp(faulty: bool) -> (u64, Option<&'static str>) {
     // A tiny range, so that several secrets share a timestamp and the id has to break the tie.
-    let base = EPOCH_S - 50 + ctx::choose("ts", 4) as u64;
+    let off = ctx::choose("ts", 4) as u64;
+    let base = EPOCH_S - 50 + off;
     if !faulty {
-        return base;
+        return (base, None);
     }
-    match ctx::choose("ts.odd", 24) {
-        0..=17 => base,
-        18 => {
-            ctx::fault("timestamp.zero");
-            0
-        }
-        19 | 20 => {
-            ctx::fault("timestamp.far_future");
-            EPOCH_S + 5_000 + ctx::choose("ts", 3) as u64
-        }
-        21 => {
-            ctx::fault("timestamp.far_future");
-            1u64 << 40
-        }
-        22 => {
-            ctx::fault("timestamp.far_future");
-            u64::MAX - 1
-        }
-        _ => {
-            ctx::fault("timestamp.u64_max");
-            u64::MAX
-        }
+    match ctx::choose("ts.odd", 64) {
+        0..=53 => (base, None),
+        54 | 55 => (0, Some("timestamp.zero")),
+        56..=59 => (EPOCH_S + 5_000 + off, Some("timestamp.far_future")),
+        60 | 61 => (1u64 << 40, Some("timestamp.far_future")),
+        62 => (u64::MAX - 1, Some("timestamp.far_future")),
+        _ => (u64::MAX, Some("timestamp.u64_max")),
     }
 }
 
@@ -140,8 +128,8 @@ impl Property for C36Prop {
     }
     fn budget(&self, tier: Tier) -> Budget {
         match tier {
-            Tier::Quick => Budget { runs: 300_000, wall_cap_s: 35 },
-            Tier::Thorough => Budget { runs: 3_000_000, wall_cap_s: 330 },
+            Tier::Quick => Budget { runs: 150_000, wall_cap_s: 35 },
+            Tier::Thorough => Budget { runs: 1_500_000, wall_cap_s: 330 },
         }
     }
     fn modes(&self) -> u32 {
@@ -205,18 +193,20 @@ impl Property for C36Prop {
         }
 
         let mut w = World { secrets: Vec::new(), replicas: Vec::new(), failed: false };
-        for i in 0..nsec {
-            let ts = initial_timestamp(faulty);
-            w.secrets.push(GroupSecret::new(seeded_bytes(10 + i as u64), ts));
+        // Always the same number of draws, whatever `nsec` is, so that the shrinker can lower the
+        // number of secrets without shifting the rest of the choice stream.
+        let stamps: Vec<(u64, Option<&'static str>)> = (0..8).map(|_| initial_timestamp(faulty)).collect();
+        for (i, (ts, fault)) in stamps.iter().take(nsec).enumerate() {
+            if let Some(kind) = fault {
+                ctx::fault(*kind);
+            }
+            w.secrets.push(GroupSecret::new(seeded_bytes(10 + i as u64), *ts));
         }
         ev!("secrets: {}", w.secrets.iter().map(label).collect::<Vec<_>>().join(" "));
         for r in 0..nrep {
-            let mut inbox: Vec<usize> = (0..nsec).collect();
-            // Replica 0 receives in creation order; the others in an order of their own.
-            if r > 0 {
-                ctx::shuffle("arrival", &mut inbox);
-            }
-            ev!("replica {}: arrival order {:?}", (b'A' + r as u8) as char, inbox);
+            // Every replica has all initial secrets queued; which one it takes next is decided step
+            // by step (0 = the next in creation order), so the orders differ between replicas.
+            let inbox: Vec<usize> = (0..nsec).collect();
             w.replicas.push(Replica { name: (b'A' + r as u8) as char, y: Some(SecretBundle::init()), model: BTreeMap::new(), inbox, rng: seeded_rng(r as u64) });
         }
         let mut receive_orders: Vec<Vec<usize>> = vec![Vec::new(); nrep];
@@ -252,7 +242,7 @@ impl Property for C36Prop {
                         r
                     };
                     let name = w.replicas[r].name;
-                    let k = ctx::choose("which", w.replicas[r].inbox.len().min(3));
+                    let k = ctx::choose("which", w.replicas[r].inbox.len());
                     let si = w.replicas[r].inbox.remove(k);
                     receive_orders[r].push(si);
                     ev!("{name}: insert {}", label(&w.secrets[si]));
@@ -265,7 +255,8 @@ impl Property for C36Prop {
                         continue;
                     }
                     let k = ctx::range("batch", 1, avail.min(4));
-                    let batch: Vec<usize> = w.replicas[r].inbox.drain(..k).collect();
+                    let from = ctx::choose("batch.from", avail - k + 1);
+                    let batch: Vec<usize> = w.replicas[r].inbox.drain(from..from + k).collect();
                     let list: Vec<GroupSecret> = batch.iter().map(|i| w.secrets[*i].clone()).collect();
                     ev!("{name}: extend with from_secrets([{}])", list.iter().map(label).collect::<Vec<_>>().join(", "));
                     receive_orders[r].extend(batch.iter().copied());
@@ -355,6 +346,13 @@ impl Property for C36Prop {
                     let Some(y) = rep.y.as_ref() else { return };
                     let new = match SecretBundle::generate(y, &rep.rng) {
                         Ok(s) => s,
+                        Err(e) if site == "latest-timestamp-u64-max" => {
+                            // No later timestamp exists; refusing to generate is the one way to keep
+                            // "every generated secret is later than the latest" true here.
+                            ctx::probe("generate_refused_at_u64_max");
+                            ev!("{name}: generate refused at clock {} s ({site}): {e}", now_s());
+                            continue;
+                        }
                         Err(e) => {
                             violation("generate-failed", site, format!("replica {name}: generate returned {e} with clock {} s", now_s()));
                             return;
